@@ -248,3 +248,15 @@ m("c18-stale-voltage-for-solve", ["C18"], Y, "                    self._g[pidx].
 m("c18-violating-state-logged", ["C18"], Y, "                    if bstate[0] > 0.0 and bstate[1] > cutoff:\n                        t += [t[-1] + deltat]", "                    if bstate[0] >= 0.0 and bstate[1] > cutoff:\n                        t += [t[-1] + deltat]")
 m("c18-timestep-factor", ["C18"], Y, "                        deltat = (cap[0] / i[pidx]) * 3.6", "                        deltat = (cap[-1] / i[pidx]) * 3.6")
 m("c18-nonsource-battery-accepted", ["C18"], Y, "        if not isinstance(self._g[pidx], Source):\n            raise ValueError(\"Battery must be a source!\")", "        if isinstance(self._g[pidx], (PLoad, ILoad, RLoad)):\n            raise ValueError(\"Battery must be a source!\")")
+
+# ---- C19 -------------------------------------------------------------------------------------
+m("c19-edges-reversed", ["C19"], D, "        graph.add_edge(pydot.Edge(p[ep[0]], p[ep[1]], **bd_conf[\"edge\"]))", "        graph.add_edge(pydot.Edge(p[ep[1]], p[ep[0]], **bd_conf[\"edge\"]))")
+m("c19-grouped-nodes-also-toplevel", ["C19"], D, "        if sys._g.attrs[\"groups\"][n] == \"\" or not group:\n            add_node(graph, n, bd_conf[\"node\"], ldf)", "        if sys._g.attrs[\"groups\"][n] == \"\" or not group or len(groups) > 2:\n            add_node(graph, n, bd_conf[\"node\"], ldf)")
+m("c19-name-override-before-kind", ["C19"], D,
+  "        # component type overrieds\n        if comp in attrs:\n            for key in attrs[comp]:\n                conf[key] = attrs[comp][key]\n        # component instance overrides\n        if name in attrs:\n            for key in attrs[name]:\n                conf[key] = attrs[name][key]",
+  "        # component instance overrides\n        if name in attrs:\n            for key in attrs[name]:\n                conf[key] = attrs[name][key]\n        # component type overrieds\n        if comp in attrs:\n            for key in attrs[comp]:\n                conf[key] = attrs[comp][key]")
+m("c19-default-conf-not-copied", ["C19"], D, "        conf = copy.deepcopy(attrs[\"default\"])", "        conf = attrs[\"default\"]")
+m("c19-mix-normalised-by-sum", ["C19"], D, "    maxloss = df[\"Loss (W)\"].max()", "    maxloss = df[\"Loss (W)\"].sum()")
+m("c19-nice-float-two-digits-milli", ["C19"], D, "        return \"{}m\".format(round(f * 1e3, 3 - (4 + pwr)))", "        return \"{}m\".format(round(f * 1e3, 2 - (4 + pwr)))")
+m("c19-heat-unweighted-phase-average", ["C19"], D, "            avg += phases[key] * df2[df2.Phase == key][\"Loss (W)\"].to_numpy().astype(", "            avg += (w + phases[key]) / (len(phases) + 0.0) * 0 + (sum(phases.values()) / len(phases)) * df2[df2.Phase == key][\"Loss (W)\"].to_numpy().astype(")
+m("c19-cluster-label-missing-member", ["C19"], D, "                if sys._g.attrs[\"groups\"][n] == g:\n                    add_node(sg, n, bd_conf[\"node\"], ldf)", "                if sys._g.attrs[\"groups\"][n] == g and sys._g.out_degree(sys._g.attrs[\"nodes\"][n]) < 3:\n                    add_node(sg, n, bd_conf[\"node\"], ldf)")
